@@ -1016,6 +1016,7 @@ func init() {
 			pop := p.MustFn("(*vuego.Stack).Pop")
 			cp := p.MustFn("(*vuego.Stack).Copy")
 			appends := 0
+			var appendSites []ssa.Instruction
 			eachInstr(push, func(in ssa.Instruction) {
 				if cl, ok := in.(*ssa.Call); ok && calleeName(&cl.Call) == "builtin.append" {
 					// appends to the scope list; a parallel record kept per scope (where the map came from) is not a scope
@@ -1024,10 +1025,22 @@ func init() {
 							return
 						}
 					}
-					appends++
+					appendSites = append(appendSites, in)
 				}
 			})
-			c.check(appends == 1, "Push: one append", p.pos(push.Pos()), "appends one scope", fmt.Sprintf("Push performs %d appends", appends))
+			// one append on a way: `if m != nil { append(m) } else { append(pooled) }` has two sites and one per way
+			appends = len(appendSites)
+			for _, a := range appendSites {
+				for _, b := range appendSites {
+					if a != b && canFollow(a, b) {
+						appends = len(appendSites) + 1 // two on one way
+					}
+				}
+			}
+			if appends == len(appendSites) && appends > 1 {
+				appends = 1
+			}
+			c.check(appends == 1, "Push: one append", p.pos(push.Pos()), "appends one scope on a way", fmt.Sprintf("Push performs %d appends on one way", len(appendSites)))
 			// … on every way through Push: a Push that only counts the call (an `empty scope on top is shared`
 			// shortcut) leaves the bindings set afterwards in the outer scope, where the matching Pop does not remove them
 			scopeAppends := map[ssa.Instruction]bool{}
